@@ -1295,6 +1295,11 @@ class hevm_cheat_code:
 
             # note: size can be 0
             code_bytes = arg[loc : loc + size]
+
+            # a symbolic address that was resolved to "no existing account" may denote the etched account
+            if who.as_z3() not in ex.code:
+                ex.alias = {k: v for k, v in ex.alias.items() if v is not None}
+
             ex.set_code(who.as_z3(), code_bytes)
 
             # vm.etch() initializes but does not clear storage
